@@ -409,6 +409,32 @@ func init() {
 				rec(strings.Repeat("B", n)+base, 0, nil, io.EOF, "nil", nil)
 			}
 		}
+		// C04 far into a long stream: a valid message followed by many repeats of one of its own segments and then a
+		// tail the reader must refuse (a marker outside FAIM, a known tag too short to parse) - however far in the tail is
+		if segs := splitSegments(base); len(segs) > 3 {
+			head := strings.Join(segs, "\n") + "\n"
+			fill := segs[len(segs)-1] + "\n"
+			if strings.HasPrefix(rec2(head+fill+fill), "ok|") {
+				sizes := []int{200 << 10, 1<<20 + 4096, 5 << 20}
+				if thorough {
+					sizes = append(sizes, 64<<10, 1<<20 - 7, 2<<20 + 1, 17 << 20)
+				}
+				for _, n := range sizes {
+					body := head + strings.Repeat(fill, n/len(fill)+1)
+					for _, tail := range []string{"{9999}not a FAIM tag\n", "{1520}2019\n", "{2000}12AB\n"} {
+						res := rec2(body + tail)
+						v := "same"
+						if strings.HasPrefix(res, "ok|") {
+							v = fmt.Sprintf("differ:a stream of %d bytes ending in %q was accepted: the tail was never examined", len(body)+len(tail), tail)
+						}
+						o.Case("prop:accepted-valid", v, "long-stream", fmt.Sprint(n), tail)
+					}
+					if !strings.HasPrefix(rec2(body), "ok|") {
+						o.Case("prop:accepted-valid", "differ:a long stream of valid segments was refused", "long-stream", fmt.Sprint(n), "")
+					}
+				}
+			}
+		}
 	}
 }
 
